@@ -62,7 +62,7 @@ def cases(tier, seed):
                              "via": via, "chunk": rng.choice([1, 2, 3, 1000]) if not many else rng.choice([1, 2]),
                              "header": f("header", 10) == 0, **({"max_merge": rng.choice([2, 3, 4])} if many else {}),
                              "labels": ["default", "offset", "perm"][f("labels", 3)], "pos_dtype": ["int64", "int32"][f("posdt", 2)],
-                             "names": ["usual", "unsorted"][f("names", 2)], "chrom_cat": ["no", "no", "lexical"][f("chromcat", 3)],
+                             "names": ["usual", "unsorted", "numeric"][f("names", 3)], "chrom_cat": ["no", "no", "lexical"][f("chromcat", 3)],
                              "chrom_ids": ["names", "names", "integer"][f("chromids", 3)], "prior_sibling": f("sibling", 3) == 1}
     # single records on every interesting position (both anchors), every option: the boundary cases of the property
     for table in tables[:6] if tier == "quick" else tables:
@@ -104,7 +104,7 @@ def cases(tier, seed):
             recs = [[r[0], r[1] + 1, r[2], r[3] + 1, r[4]] for r in recs]
         yield "ig.bg2", {"table": table, "recs": recs, "one_based": one_based, "tril": tril, "valued": True,
                          "via": via, "chunk": rng.choice([1, 2, 3, 4, 1000]), "mergebuf": rng.choice([0, 0, 1, 2]),
-                         "prior_sibling": f("sibling", 3) == 1}
+                         "prior_sibling": f("sibling", 3) == 1, "names": ["usual", "unsorted", "numeric"][f("names", 3)]}
     for h in range(200 if tier == "quick" else 3000):
         f = gen.feat(3, h)
         table = tables[f("table", len(tables))]
